@@ -84,6 +84,11 @@ func OrcaFault(a Args) {
 		}
 		return stack.MMap{}, stack.MMap{}
 	}
+	// a pooled (batched) tier re-submits requests after a lost connection: at-least-once semantics
+	retry := 0
+	if a.Cfg.L1 == "batched" || a.Cfg.L2 == "batched" {
+		retry = 3
+	}
 	hangs, nplace := 0, 0
 	timeout := 4 * time.Second
 	dial := func(port string) *wire.Client {
@@ -147,7 +152,7 @@ func OrcaFault(a Args) {
 					s.Arm(f)
 					l1j, l2j := tiers()
 					rec.Emit(map[string]interface{}{"ev": "reset", "cfg": a.Cfg.String(), "proto": a.Proto, "twotier": st.L2 != nil,
-						"scenario": sc.ID, "trace": nplace, "seed": a.Seed, "sizes": a.Sizes})
+						"scenario": sc.ID, "trace": nplace, "seed": a.Seed, "sizes": a.Sizes, "retry": retry})
 					rec.Emit(map[string]interface{}{"ev": "init", "l1": l1j, "l2": l2j})
 					fault := map[string]interface{}{"tier": tier, "n": n, "kind": fk.Name, "class": fk.Class, "op": sc.Cmd.Op, "port": sc.Port, "pre": sc.Pre, "of": counts[tier]}
 					rec.Emit(map[string]interface{}{"ev": "fault", "fault": fault})
